@@ -464,7 +464,7 @@ def run(rep: Any, tier: str, seed: int) -> bool:
     from lib import vlib
     big = tier == "thorough"
     rng = random.Random(seed * 15485863 + 1020)
-    n_univ, n_orders, n_req = (900, 3, 6) if big else (50, 3, 6)
+    n_univ, n_orders, n_req = (500, 3, 6) if big else (50, 3, 6)
     universes = [gen_universe(rng, uid, n_orders, n_req) for uid in range(n_univ)]
     cases: List[Tuple[dict, dict]] = []
     for u in universes:
